@@ -261,11 +261,29 @@ Fixpoint check_b2 (body : bytes) (app_opts : list (N * list bytes)) (off : N) (f
   | _, _ => false
   end.
 
+(* a case may hold several transfers in a row (consecutive exchanges with the same tid): each is judged on its own *)
+Fixpoint span_tid (t : N) (l : list ((N * packet * N * reply) * obs)) : list ((N * packet * N * reply) * obs) * list ((N * packet * N * reply) * obs) :=
+  match l with
+  | (((t', _, _, _), _) as x) :: r => if t' =? t then let '(a, b) := span_tid t r in (x :: a, b) else ([], l)
+  | [] => ([], [])
+  end.
+Fixpoint check_transfers (fuel : nat) (l : list ((N * packet * N * reply) * obs)) : bool :=
+  match fuel with
+  | O => false
+  | S f =>
+    match l with
+    | [] => true
+    | (((t, _, _, rp), _) as x) :: r =>
+      let '(a, b) := span_tid t r in
+      check_b2 (rp_body rp) (rp_opts rp) 0 true (map fst (x :: a)) (map snd (x :: a)) && check_transfers f b
+    end
+  end.
+
 Definition verdict80 (s out : list N) : bool :=
   match rd_case8 s with
   | Some (m, mode, l) =>
     match exchanges l, rd_obs_list (S (length out)) out with
-    | ((_, _, _, rp) :: _) as ex, Some os => check_b2 (rp_body rp) (rp_opts rp) 0 true ex os
+    | (_ :: _) as ex, Some os => (len ex =? len os) && check_transfers (S (length ex)) (combine ex os)
     | _, _ => false
     end
   | None => false
